@@ -88,7 +88,7 @@ func main() {
 	par := flag.Int("par", 4, "entries in parallel")
 	noReplay := flag.Bool("noreplay", false, "skip native replays")
 	replayFile := flag.String("replay", "", "replay a recorded counterexample file natively")
-	backend := flag.String("backend", "z3", "z3|z3-new|cvc5")
+	backend := flag.String("backend", "z3-new", "z3|z3-new|cvc5")
 	flag.Parse()
 	if *prop == "" {
 		fmt.Fprintln(os.Stderr, "usage: gosym -prop C17 [-tier quick|thorough]")
@@ -623,7 +623,7 @@ func finish(prop, tier string, seed int, files []*harnessFile, results []*entryR
 	for _, r := range results {
 		totalPaths += r.Paths
 		totalSteps += r.Steps
-		for _, a := range r.Aborts {
+		for _, a := range dedupe(r.Aborts) {
 			inconclusive = append(inconclusive, fmt.Sprintf("%s: engine abort: %s", r.Entry, firstLine(a)))
 		}
 		if r.TimedOut {
@@ -796,7 +796,7 @@ func finish(prop, tier string, seed int, files []*harnessFile, results []*entryR
 		assumptions = append(assumptions, a)
 	}
 	sort.Strings(assumptions)
-	assumptions = append(assumptions, "engine: go/ssa symbolic executor (verif/gosym); SMT back end "+"z3 4.8.12 via z3 -in; strings as SMT strings over bytes; integers as bit-vectors")
+	assumptions = append(assumptions, "engine: go/ssa symbolic executor (verif/gosym); SMT back ends: z3 5.1.0 (z3-new -in) primary; z3 4.8.12 and cvc5 1.0 as portfolio fall-back for unknown results; strings as SMT strings over bytes; integers as bit-vectors")
 	ev := map[string]interface{}{
 		"property_id": prop, "tier": tier, "seed": seed, "level": "model_checking",
 		"coverage": map[string]interface{}{
